@@ -91,7 +91,7 @@ func runRobust(o opts, out *Output) {
 	r := NewRng(o.seed)
 	stats := map[string]int{}
 	for c := 0; c < o.n; c++ {
-		g := &OGen{r: r.Fork(), Wide: r.Chance(20), Mono: monoPick(r)}
+		g := &OGen{r: r.Fork(), Wide: r.Chance(20), Mono: monoPick(r), BadUTF8: c%3 == 1}
 		var options []cfgpkg.Option
 		optName := "default"
 		if r.Bool() {
@@ -107,7 +107,9 @@ func runRobust(o opts, out *Output) {
 			if single == 3 {
 				sig = r.Intn(3)
 			}
+			g.Zero = c%10 == 3 && b == 0
 			data := genAny(g, r, sig)
+			g.Zero = false
 			if r.Chance(6) {
 				wg := &OGen{r: r.Fork(), Wide: true}
 				data = genAnyN(wg, r, sig, 300+r.Intn(200)) // many dictionary columns crossing an index width in one batch
